@@ -66,6 +66,7 @@ type vsRun struct {
 	hist []string
 
 	nextCapture int
+	brokenFiles int
 	views       [2]*vsView
 	mergesDone  int
 	importsDone int
@@ -177,7 +178,17 @@ func (r *vsRun) genDef(name string, existing []string) string {
 		tmpl := rapid.SampledFrom(vsRefs).Draw(rt, "reftmpl")
 		return fmt.Sprintf(strings.Replace(tmpl, "tag:", typ+":", 1), sub)
 	}
-	return rapid.SampledFrom(rapid.SampledFrom(pools).Draw(rt, "pool")).Draw(rt, "def")
+	def := rapid.SampledFrom(rapid.SampledFrom(pools).Draw(rt, "pool")).Draw(rt, "def")
+	if r.open["F-C02-negated-sequence-across-converter-outputs"] && len(r.cfg.converters) != 0 && strings.Contains(def, " then ") {
+		// a payload sequence in a definition: negated references to it (directly or through other tags) are
+		// answered wrongly while it is pending and a converter has produced output (open finding)
+		if r.c != nil {
+			r.c.Count("excluded_known", 1)
+			r.c.Label("steered:F-C02-negated-sequence-across-converter-outputs")
+		}
+		def = "cdata:aa sdata:bb"
+	}
+	return def
 }
 
 // tagJobInFlight reports whether a tagging job is between begin and delivery.
@@ -221,6 +232,18 @@ func (r *vsRun) stepImport() {
 		idxs = append(idxs, ci)
 	}
 	r.nextCapture = r.tr.captures() - len(remaining)
+	// now and then an upload that is no capture at all (or one cut before its first packet) is queued with the others
+	if rapid.IntRange(0, 7).Draw(rt, "broken") == 0 {
+		r.brokenFiles++
+		bn := fmt.Sprintf("broken%02d.pcap", r.brokenFiles)
+		content := rapid.SampledFrom([][]byte{{}, []byte("this is not a capture file\n"), {0xd4, 0xc3, 0xb2, 0xa1, 2, 0, 4, 0, 0, 0},
+			{0xd4, 0xc3, 0xb2, 0xa1, 2, 0, 4, 0, 0, 0, 0, 0, 0, 0, 0, 0, 0, 0, 1, 0, 228, 0, 0, 0, 1, 2, 3}}).Draw(rt, "brokencontent")
+		if err := os.WriteFile(filepath.Join(r.e.dirs.pcap, bn), content, 0o644); err != nil {
+			r.fatalf("write broken capture: %v", err)
+		}
+		at := rapid.IntRange(0, len(names)).Draw(rt, "brokenpos")
+		names = append(names[:at], append([]string{bn}, names[at:]...)...)
+	}
 	r.log("import %v", names)
 	r.e.mgr.ImportPcaps(names)
 	r.pendingImports = append(r.pendingImports, idxs)
